@@ -3,7 +3,7 @@
    (pkg/readahead/immediate.go Scan over a scripted io.Reader). *)
 From Coq Require Import List NArith Bool Arith.
 From Coq Require Import ZArith.
-From RareV Require Import Gen.GenConsts Base.Hex Model.Lines Model.LinesBuf Proofs.LinesProof Proofs.LinesErr Proofs.LinesTotal Proofs.LinesMain Proofs.LinesBufProof.
+From RareV Require Import Gen.GenConsts Model.Skel Gen.GenSkel Base.Hex Model.Lines Model.LinesBuf Proofs.LinesProof Proofs.LinesErr Proofs.LinesTotal Proofs.LinesMain Proofs.LinesBufProof.
 Import ListNotations.
 
 (* For every stream, every read script (chunking, 0-byte reads, n>0 with error, error position)
@@ -39,6 +39,13 @@ Print Assumptions C04_check_sound.
 Theorem C04_check_sound_buffered : forall mx scr str o, mx >= 2 -> brun mx scr str = Some o -> C04_check mx scr o = true.
 Proof. exact C04_check_sound_buffered_proof. Qed.
 Print Assumptions C04_check_sound_buffered.
+
+(* translator obligation: the holder of the scanner's slices. The batching loops append readahead.Bytes() to a
+   batch and, after sending it, continue with a FRESH slice - `batch = batch[:0]` would let later lines
+   overwrite entries of a batch the consumer still holds (the slices of this property, one level up); the
+   conditions are those of Model/Skel.v on the regenerated skeleton of both loops (see C01_skeleton) *)
+Theorem C04_batch_slices_fresh : sync_reader_ok skel_sync_reader && sync_reader_ok skel_sync_reader_flush = true.
+Proof. vm_compute. reflexivity. Qed.
 
 (* translator obligation: the buffer size the batchers pass to the scanner is positive *)
 Theorem C04_bufsize_pos : (1 <= ReadAheadBufferSize)%Z.
